@@ -319,6 +319,13 @@ func checkC14Bundle(pc *gen.ProgCase) Verdict {
 }
 
 func checkC14(c C14Case) Verdict {
+	if c.Namespace == "hand-written tier" {
+		// (the replay of a failure of that tier)
+		if err := c14HostileTier(newRecorder("C14h")); err != nil {
+			return bad(true, "%v", err)
+		}
+		return ok(true, "hand-written")
+	}
 	if hashCase(c)%2 == 0 {
 		failedGeneration()
 	}
@@ -403,5 +410,13 @@ func TestC14(t *testing.T) {
 	c14rec = newRecorder("C14x")
 	defer c14rec.flush()
 	defer theNode.stop()
+	if shard() == "0" && os.Getenv("VERIF_REPLAY") == "" && os.Getenv("VERIF_CORPUS_ONLY") == "" {
+		if err := c14HostileTier(c14rec); err != nil {
+			c := C14Case{Namespace: "hand-written tier"}
+			writeFail("C14", c, err)
+			c14rec.flush()
+			t.Fatalf("hand-written tier: %v", err)
+		}
+	}
 	runProp(t, "C14", genC14, checkC14)
 }
